@@ -1,9 +1,11 @@
 package main
 
 import (
-	"strings"
 	"fmt"
+	"sort"
+	"strings"
 	"sync"
+	"time"
 )
 
 func init() { commands["c12"] = runC12 }
@@ -30,6 +32,22 @@ func c12Corpus() [][]*SOp {
 			{Op: "GetNodeBal", ID: "n1"}, {Op: "AddAcctNode", Acct: "w2", ID: "n1"}, {Op: "GetNodeBal", ID: "n1"},
 			{Op: "GetAcctBal", Acct: "w1"}, {Op: "AddNodeBal", ID: "n1", Amount: "1"}, {Op: "GetAcctBal", Acct: "w2"},
 			{Op: "Stats"}, {Op: "GetAcctNodes", Acct: "w1"}, {Op: "GetAcctNodes", Acct: "w2"}},
+		{ // the only tracked peer stops checking in: the keep-alive that prunes it leaves an empty set
+			{Op: "SetNode", ID: "n1", Host: true}, {Op: "SetNode", ID: "n2"},
+			{Op: "UpdatePeers", ID: "n2", Peers: []string{"n1"}}, {Op: "NodePeers", ID: "n2"},
+			{Op: "Advance", D: 150e9}, {Op: "UpdatePeers", ID: "n2", Peers: []string{"n1"}},
+			{Op: "NodePeers", ID: "n2"}, {Op: "SetNode", ID: "n1", Host: true},
+			{Op: "UpdatePeers", ID: "n2", Peers: []string{}}, {Op: "NodePeers", ID: "n2"}, {Op: "Stats"}},
+		{ // a tracked peer stays listed between the node's own check-ins, however old its entry
+			{Op: "SetNode", ID: "n1", Host: true}, {Op: "SetNode", ID: "n2"}, {Op: "Advance", D: 100e9},
+			{Op: "UpdatePeers", ID: "n2", Peers: []string{"n1"}}, {Op: "SetNode", ID: "n1", Host: true},
+			{Op: "Advance", D: 30e9}, {Op: "NodePeers", ID: "n2"}, {Op: "Advance", D: 100e9}, {Op: "NodePeers", ID: "n2"}},
+		{ // a keep-alive that lists nobody any more: every stored entry ages out together
+			{Op: "SetNode", ID: "n1", Host: true}, {Op: "SetNode", ID: "n3", Host: true}, {Op: "SetNode", ID: "n2"},
+			{Op: "UpdatePeers", ID: "n2", Peers: []string{"n1", "n3"}}, {Op: "Advance", D: 121e9},
+			{Op: "SetNode", ID: "n1", Host: true}, {Op: "SetNode", ID: "n3", Host: true},
+			{Op: "UpdatePeers", ID: "n2", Peers: []string{}}, {Op: "NodePeers", ID: "n2"},
+			{Op: "UpdatePeers", ID: "n2", Peers: []string{"n3"}}, {Op: "NodePeers", ID: "n2"}},
 	}
 }
 
@@ -105,5 +123,72 @@ func runC12(ctx *Ctx) {
 		jobs <- job{c, ops}
 	}
 	close(jobs)
+	if i := 2 * (nseq + len(corpus) + 1); ctx.Want(i) {
+		wg.Add(1)
+		go func() { defer wg.Done(); c12NonceWindow(ctx, i) }()
+	}
 	wg.Wait()
+}
+
+// c12NonceWindow: the persistent driver forgets nonce entries after a while, the in-memory one
+// never does; for as long as a nonce is inside its freshness window both must refuse a repeat of
+// it. The window is shortened through the hook; the repeats are placed at every quarter of the
+// window's last two seconds (the entry's expiry is kept at whole seconds by the database).
+func c12NonceWindow(ctx *Ctx, i int) {
+	type ttlSetter interface{ VerifSetNonceExpire(time.Duration) }
+	win := 2 * time.Second
+	var mon []string
+	var log []string
+	var mu sync.Mutex
+	var rw sync.WaitGroup
+	for round, frac := range [][2]float64{{0.55, 0.7}, {0.85, 0.92}, {0.1, 0.2}} {
+		round, frac := round, frac
+		rw.Add(1)
+		go func() {
+			defer rw.Done()
+			bdg := newStore(drvBdg)
+			mem := newStore(drvMem)
+			bdg.Store.(ttlSetter).VerifSetNonceExpire(win)
+			if m, ok := mem.Store.(ttlSetter); ok {
+				m.VerifSetNonceExpire(win)
+			}
+			alignFrac(frac[0], frac[1])
+			id := fmt.Sprintf("window-%d", round)
+			n := time.Now().Add(-time.Millisecond).UnixNano()
+			deadline := time.Unix(0, n).Add(win)
+			eb, em := bdg.CheckAndSaveNonce(id, n), mem.CheckAndSaveNonce(id, n)
+			if (eb == nil) != (em == nil) {
+				mu.Lock()
+				mon = append(mon, fmt.Sprintf("c12-drivers-disagree: first use of a fresh nonce: memory %v, badger %v", em, eb))
+				mu.Unlock()
+			}
+			for q := 7; q >= 1; q-- {
+				at := deadline.Add(-time.Duration(q) * 250 * time.Millisecond)
+				if at.After(deadline.Add(-60 * time.Millisecond)) {
+					continue
+				}
+				time.Sleep(time.Until(at))
+				t := time.Now()
+				eb, em = bdg.CheckAndSaveNonce(id, n), mem.CheckAndSaveNonce(id, n)
+				left := deadline.Sub(time.Now())
+				mu.Lock()
+				log = append(log, fmt.Sprintf("round %d: repeat %s before the end of the window: memory %v, badger %v", round, deadline.Sub(t).Round(time.Millisecond), em, eb))
+				mu.Unlock()
+				if left < 40*time.Millisecond {
+					continue // the machine stalled: too close to the deadline to mean anything
+				}
+				if (eb == nil) != (em == nil) {
+					mu.Lock()
+					mon = append(mon, fmt.Sprintf("c12-drivers-disagree: a nonce accepted %s ago (window %s, so still fresh for %s) is presented again: memory answers %v, badger answers %v", t.Sub(time.Unix(0, n)).Round(time.Millisecond), win, left.Round(time.Millisecond), em, eb))
+					mu.Unlock()
+					break
+				}
+			}
+			bdg.Destroy()
+			mem.Destroy()
+		}()
+	}
+	rw.Wait()
+	sort.Strings(log)
+	ctx.Emit(Case{I: i, Kind: "nonce-window-both-drivers", Desc: map[string]interface{}{"window_ns": int64(win), "log": log}, Monitor: mon})
 }
